@@ -201,6 +201,11 @@ def run_for_property(prop, tier, scratch, seed=0, only=None):
                     out.append(rec)
                     continue
                 r = hit[0]
+                if not r["ok"] and ("CBMC timed out" in r["text"] or "out of memory" in r["text"].lower()):
+                    rec["inconclusive"] = "harness %s: CBMC timed out / out of memory (limit %s)" % (
+                        h["name"], os.environ.get("VERIF_KANI_HARNESS_TIMEOUT", "900s"))
+                    out.append(rec)
+                    continue
                 rec["ok"] = r["ok"]
                 rec["time_s"] = r.get("time_s", 0.0)
                 if not r["ok"]:
